@@ -58,3 +58,9 @@ func init() {
 	externals["runtime.Callers"] = func(fr *frame, args []value) value { return 0 }
 	externals["github.com/pkg/errors.callers"] = func(fr *frame, args []value) value { return (*value)(nil) }
 }
+
+func init() {
+	// identity: only hides the pointer from escape analysis
+	externals["internal/abi.NoEscape"] = func(fr *frame, args []value) value { return args[0] }
+	externals["strings.noescape"] = func(fr *frame, args []value) value { return args[0] }
+}
